@@ -58,6 +58,21 @@ def impl_iter_shared_list(dag):
     return [ops.index(o) for o in p.values], [sorted(ops.index(q) for q in o.parents) for o in ops]
 
 
+def impl_iter_oneshot_parents(dag):
+    """the same DAG built by a caller that hands the parents over as one-shot iterables (a generator, `filter`, `map`, a tuple)"""
+    if REPO not in sys.path:
+        sys.path.insert(0, REPO)
+    from eudoxia.workload.pipeline import Pipeline
+    from eudoxia.utils import Priority
+    p = Pipeline("p", Priority.BATCH_PIPELINE)
+    ops = []
+    for k, par in enumerate(dag):
+        ps = [ops[i] for i in par]
+        arg = None if not ps else [(x for x in ps), filter(None, ps), map(lambda x: x, ps), tuple(ps)][k % 4]
+        ops.append(p.new_operator(arg))
+    return [ops.index(o) for o in p.values], [sorted(ops.index(q) for q in o.parents) for o in ops]
+
+
 def impl_iter_overlapping(dag):
     """two iterations of the same DAG alive at once: the first is advanced k steps, a second one is started and run to its end, then the first is
     finished; and two iterators advanced in lock-step (`zip`).  Each of them must still visit every operator exactly once, parents first"""
@@ -119,6 +134,11 @@ def check_dags(ctx, dags, drv, exhaustive_upto=None):
                 ctx.violations.append({"what": f"two iterations of the DAG {dag} alive at the same time disturb each other: one yields {a}, the other {b} "
                                                f"(an iteration alone: {order})", "layer": "W", "dag": dag, "sig": {"clause": "iteration-overlapping"}})
                 return
+        o4, pars4 = impl_iter_oneshot_parents(dag)
+        if o4 != order or pars4 != [sorted(x) for x in dag]:
+            ctx.violations.append({"what": f"the DAG {dag} built from parents handed over as generators / filter / map / tuples iterates as {o4} (from lists: {order}) "
+                                           f"and records the parents {pars4}", "layer": "W", "dag": dag, "sig": {"clause": "iteration-oneshot-parents"}})
+            return
         o3, pars = impl_iter_shared_list(dag)
         if o3 != order or pars != [sorted(x) for x in dag]:
             ctx.violations.append({"what": f"the DAG {dag} built from a parents list that the caller re-uses afterwards iterates as {o3} (fresh lists: {order}) and "
